@@ -149,6 +149,19 @@ def gen_param(rng, auto, blocknames):
     return p
 
 
+GEN_TYPES = ['MASS', 'HEAT', 'COM1', 'COM2', ' AIR', 'DELV', 'WATE', 'MASS']
+# round 6 (seed C01-m12): types that share a prefix / suffix / case with the literals the reader and the writer test
+# ('DELV'), so that a condition on the type that differs between write_generator and read_generator is exercised
+GEN_TYPES_NEAR = ['DELG', 'DELS', 'DELT', 'DELW', 'DELX', 'XELV', 'delv', 'DEL1', 'VDEL', 'RECH', 'FEED', 'CO2 ']
+
+
+def gen_type(rng):
+    k = rng.random()
+    if k < 0.62: return rng.choice(GEN_TYPES)
+    if k < 0.92: return rng.choice(GEN_TYPES_NEAR)
+    return ''.join(rng.choice('ABCDELVX12') for _ in range(4))
+
+
 def gen_generators(rng, blocknames, n):
     out = []
     keys = set()
@@ -158,7 +171,7 @@ def gen_generators(rng, blocknames, n):
         if (block, name) in keys: continue
         keys.add((block, name))
         g = {'block': block, 'name': name, 'nseq': opt(rng, lambda: intw(rng, 5, 0), 0.7), 'nadd': opt(rng, lambda: intw(rng, 5, 0), 0.7),
-             'nads': opt(rng, lambda: intw(rng, 5, 0), 0.7), 'type': rng.choice(['MASS', 'HEAT', 'COM1', 'COM2', ' AIR', 'DELV', 'WATE', 'MASS']),
+             'nads': opt(rng, lambda: intw(rng, 5, 0), 0.7), 'type': gen_type(rng),
              'ltab': 0, 'itab': '', 'gx': opt(rng, lambda: real(rng, neg=True)), 'ex': opt(rng, lambda: real(rng)),
              'hg': opt(rng, lambda: real(rng), 0.6), 'fg': opt(rng, lambda: real(rng), 0.6), 'time': [], 'rate': [], 'enthalpy': []}
         k = rng.random()
